@@ -459,6 +459,16 @@ theorem equalsFuel_clean : ∀ (n : Nat) (ta : Ty) (a : Payload) (tb : Ty) (b : 
         | trivial
         | (apply Res.All.map; intro _; exact clean_accVal _)
         | split)
+      -- the set branch: two membership loops, each answering unknown or a boolean
+      all_goals
+        simp only []
+        repeat' (first
+          | exact Res.All.ok (clean_boolVal _)
+          | exact Res.All.ok clean_unkBool
+          | exact Res.All.panic
+          | exact Res.All.unmodelled
+          | trivial
+          | split)
 
 theorem equalsP_clean (ta : Ty) (a : Payload) (tb : Ty) (b : Payload) : (equalsP ta a tb b).All Clean :=
   equalsFuel_clean _ _ _ _ _
